@@ -827,6 +827,7 @@ def r1(ctx: RuleCtx) -> None:
 EXC_PARENT = {
     'KeyError': 'LookupError', 'IndexError': 'LookupError', 'LookupError': 'Exception', 'EOFError': 'Exception',
     'UnpicklingError': 'PickleError', 'PickleError': 'Exception', 'OSError': 'Exception', 'IOError': 'Exception',
+    'BrokenPipeError': 'ConnectionError', 'ConnectionError': 'OSError',
     'FileNotFoundError': 'OSError', 'PermissionError': 'OSError', 'BlockingIOError': 'OSError', 'IsADirectoryError': 'OSError',
     'ValueError': 'Exception', 'TypeError': 'Exception', 'AttributeError': 'Exception', 'ImportError': 'Exception',
     'ModuleNotFoundError': 'ImportError', 'RuntimeError': 'Exception', 'Exception': 'BaseException',
@@ -834,8 +835,11 @@ EXC_PARENT = {
 }
 
 
+_EXTRA_EXC_MODULES: T.List[str] = []      # modules of the frames R6 walks through (their own exception classes)
+
+
 def _repo_parents(repo: Repo, bare: str) -> T.List[str]:
-    for rel in (COREDATA, 'mesonbuild/utils/core.py', UNIVERSAL, ENVIRONMENT):
+    for rel in (COREDATA, 'mesonbuild/utils/core.py', UNIVERSAL, ENVIRONMENT) + tuple(_EXTRA_EXC_MODULES):
         m = repo.module(rel)
         if m.has_cls(bare):
             return [(attr_chain(b) or '').split('.')[-1] for b in m.cls(bare).bases]
@@ -1564,6 +1568,8 @@ def _fs_test(ps: PathSym, ref: FuncRef, e: ast.AST, env: T.Dict[str, Terms], dep
         kind = cn.split('.')[-1]
         if ts and all(t[0] == 'join' and len(t[1]) >= 2 and t[1][-2:] == (P.const(PRIVATE_DIR), P.const('coredata.dat')) for t in ts):
             return 'valid' if kind in ('exists', 'isfile', 'lexists') else 'coredata-is-a-directory'
+        if ts and all(t[0] == 'join' and len(t[1]) >= 2 and t[1][-2:] == (P.const(PRIVATE_DIR), P.const('build.dat')) for t in ts):
+            return 'build-data' if kind in ('exists', 'isfile', 'lexists') else None
         if ts and all(t[0] == 'join' and t[1][-1] == P.const(PRIVATE_DIR) for t in ts):
             return 'partial' if kind in ('exists', 'isdir', 'lexists') else 'private-is-a-file'
         return None
@@ -1944,7 +1950,8 @@ def r3(ctx: RuleCtx) -> None:
             return 'raise MesonException'
         if 'nonempty' in v and not v['nonempty']:
             return 'return'
-        if v['valid']:
+        # build.dat is written after coredata.dat: where the code tests it too, coredata.dat alone is an interrupted setup (a partial build)
+        if v['valid'] and v.get('build-data', True):
             return 'return' if (v['reconfigure'] or v['wipe']) else 'raise SystemExit'
         if not v['partial'] and v['wipe']:
             return 'raise MesonException'
@@ -1966,13 +1973,13 @@ def r3(ctx: RuleCtx) -> None:
             continue
         v.update(dict(zip(missing, extra)))
         # the file system: coredata.dat lives inside meson-private; a path is a file or a directory, not both
-        if v.get('valid') and not v.get('partial'):
+        if (v.get('valid') or v.get('build-data')) and not v.get('partial'):
             continue
         if (v.get('private-is-a-file') and v.get('partial')) or (v.get('coredata-is-a-directory') and v.get('valid')):
             continue
         if v.get('private-is-a-file') or v.get('coredata-is-a-directory'):
             continue       # outside the reference (a damaged layout the property does not speak about)
-        if (v.get('valid') or v.get('partial')) and v.get('nonempty') is False:
+        if (v.get('valid') or v.get('partial') or v.get('build-data')) and v.get('nonempty') is False:
             continue
         rows = tab.fire(w)
         if len(rows) != 1:
@@ -2748,9 +2755,330 @@ def r6_backup(ctx: RuleCtx) -> None:
                         f'yet no handler for FileNotFoundError encloses it and no existence test of that name dominates it: `meson setup --wipe` dies on a partial build directory', s.call)
     if n == 0:
         raise Undecided('msetup: no copy/read of a recovery-critical file whose name folds from constants (the backup before a wipe is spelled in a way the rule does not follow)')
+    _r6_handoffs(ctx, mod, ps)
 
 
-LOADERS = {'pickle.load': ('EOFError', 'UnpicklingError'), 'json.load': ('ValueError',)}
+# -- R6, second clause: state files read by a function msetup hands control to ------------------------------------------------
+
+EXISTS_FUNCS = ('os.path.exists', 'os.path.isfile', 'os.path.lexists')
+HANDOFF_DEPTH = 4
+StateChain = T.List[T.Tuple[FuncRef, ast.AST, T.Dict[str, Terms]]]      # innermost (the sink) first, the msetup function last
+
+
+def _callee_or_ctor(ps: PathSym, ref: FuncRef, call: ast.Call) -> T.Optional[FuncRef]:
+    """resolve_callee, and `C(...)` with C a repository class -> C.__init__ (own helper: PathSym does not follow constructors)."""
+    r = ps.resolve_callee(ref, call)
+    if r is not None:
+        return r
+    cn = attr_chain(call.func)
+    if cn and not isinstance(call.func, ast.Call):
+        rc = ps.resolve_class(ref.mod, cn)
+        if rc is not None:
+            return ps._method(rc[0], rc[1], '__init__')
+    return None
+
+
+def _private_base(t: Term) -> T.Optional[str]:
+    """Base name of a term that spells <...>/meson-private/<constant>."""
+    if t[0] == 'join' and len(t[1]) >= 2 and t[1][-2] == P.const(PRIVATE_DIR) and t[1][-1][0] == 'const':
+        return str(t[1][-1][1])
+    return None
+
+
+_SPELLS_PRIVATE: T.Dict[T.Tuple[int, str], bool] = {}
+
+
+def _state_events(ps: PathSym, ref: FuncRef, depth: int = HANDOFF_DEPTH, exact: bool = False) -> T.List[T.Tuple[str, str, StateChain]]:
+    """('read' | 'write', base name, call chain) for every constant-named file the function - or a repository function it calls,
+    arguments bound, constructors followed, `depth` levels - opens for reading under meson-private / writes or renames into place."""
+    out: T.List[T.Tuple[str, str, StateChain]] = []
+    seen: T.Set[T.Any] = set()
+
+    def visit(r: FuncRef, env: T.Dict[str, Terms], d: int, outer: StateChain) -> None:
+        key = (repr(r), tuple(sorted(env.items(), key=lambda kv: kv[0])))
+        if key in seen:
+            return
+        seen.add(key)
+        fn = r.node
+        for s in _sinks(fn, set()):
+            if s.path is None or s.kind not in ('read', 'write', 'rename'):
+                continue
+            terms = ps.resolve(r, s.path, env, depth=2)
+            if s.kind == 'read':
+                bases = {_private_base(t) for t in terms}
+            else:
+                bases = {P.basename(t) for t in terms}
+            if len(bases) == 1 and None not in bases:
+                out.append(('read' if s.kind == 'read' else 'write', str(next(iter(bases))), [(r, s.call, env)] + outer))
+        if d <= 0:
+            return
+        for n in walk_no_nested(fn):
+            if isinstance(n, ast.Call):
+                callee = _callee_or_ctor(ps, r, n)
+                if callee is not None and callee.mod.rel.startswith('mesonbuild/') and callee.qn != r.qn:
+                    env2 = ps.bind_args(callee, n, r, env, 2, frozenset())
+                    env2 = {k: v for k, v in env2.items() if any(c for t in v for c in P.consts_in(t))}
+                    if not env2 and not exact:
+                        # quick tier: a callee that receives no constant name is entered only if its module spells the directory
+                        k2 = (id(ps.repo), callee.mod.rel)
+                        if k2 not in _SPELLS_PRIVATE:
+                            _SPELLS_PRIVATE[k2] = PRIVATE_DIR in callee.mod.src
+                        if not _SPELLS_PRIVATE[k2]:
+                            continue
+                    visit(callee, env2, d - 1, [(r, n, env)] + outer)
+    visit(ref, {}, depth, [])
+    return out
+
+
+def _exists_edge(ps: PathSym, ref: FuncRef, env: T.Dict[str, Terms], test: ast.AST, label: bool, base: str, unknown: T.List[str],
+                 seen: T.FrozenSet[str] = frozenset()) -> bool:
+    """Does taking the `label` edge of this test establish that meson-private/<base> exists?"""
+    if isinstance(test, ast.UnaryOp) and isinstance(test.op, ast.Not):
+        return _exists_edge(ps, ref, env, test.operand, not label, base, unknown, seen)
+    if isinstance(test, ast.BoolOp):
+        if (isinstance(test.op, ast.And) and label) or (isinstance(test.op, ast.Or) and not label):
+            return any(_exists_edge(ps, ref, env, v, label, base, unknown, seen) for v in test.values)
+        return False
+    if isinstance(test, ast.Name) and test.id not in seen:
+        d = ps.local_defs(ref.node).get(test.id, [])
+        if len(d) == 1 and d[0] is not None:
+            return _exists_edge(ps, ref, env, d[0], label, base, unknown, seen | {test.id})
+        return False
+    if isinstance(test, ast.Call):
+        cn = call_name(test) or ''
+        arg = test.args[0] if test.args else (test.func.value if isinstance(test.func, ast.Attribute) else None)
+        if cn in EXISTS_FUNCS or (call_method(test) in ('exists', 'is_file') and not test.args):
+            if arg is None:
+                return False
+            got = {_private_base(t) or P.basename(t) for t in ps.resolve(ref, arg, env, depth=2)}
+            if got == {base}:
+                return label
+            if None in got:
+                unknown.append(short(test))
+    return False
+
+
+def _tested_before(ps: PathSym, ref: FuncRef, env: T.Dict[str, Terms], node: ast.AST, bases: T.Iterable[str], unknown: T.List[str]) -> T.List[str]:
+    """The base names among `bases` whose existence test dominates `node` in ref (node unreachable once the edges on which
+    the file is known to exist are cut)."""
+    cfg = CFG(ref.node)
+    at = cfg.node_containing(node)
+    if not at:
+        raise Undecided(f'{ref.qn}: `{short(node)}` is not in the CFG')
+    out = []
+    for b in bases:
+        def edge_ok(a: Node, _b: Node, lab: T.Any, b: str = b) -> bool:
+            if a.kind == 'test' and lab in (True, False):
+                u: T.List[str] = []
+                r = _exists_edge(ps, ref, env, a.ast.test, lab, b, u)      # type: ignore[union-attr]
+                if u and any(cfg.can_reach(a, n) for n in at):
+                    unknown.extend(x for x in u if x not in unknown)
+                return not r
+            return True
+        reach = cfg.reachable([cfg.entry], edge_ok=edge_ok)
+        if not any(n.id in reach for n in at):
+            out.append(b)
+    return out
+
+
+def _frame_outcome(ctx: RuleCtx, ps: PathSym, ref: FuncRef, node: ast.AST, env: T.Dict[str, Terms], base: str, exc: str) -> T.Tuple[str, str]:
+    """One frame: ('tolerated', where) or ('escapes', class leaving this function)."""
+    if ref.mod.rel not in _EXTRA_EXC_MODULES and ref.mod.rel not in (COREDATA, UNIVERSAL, ENVIRONMENT, _R6_EXAMPLE_REL, _R6_READER_REL):
+        _EXTRA_EXC_MODULES.append(ref.mod.rel)
+    unknown: T.List[str] = []
+    if _tested_before(ps, ref, env, node, [base], unknown):
+        return 'tolerated', f'existence test of {base} in {ref.qn}'
+    if unknown:
+        raise Undecided(f'{ref.qn}: an existence test on the way to `{short(node)}` names a file the rule cannot fold: {unknown[0]}')
+    if _suppressed(ref.mod, ref.node, node, _ancestors(ctx.repo, exc)):
+        return 'tolerated', f'contextlib.suppress in {ref.qn}'
+    tries, _ = _enclosing_tries(ref.mod, ref.node, node)
+    for tr in tries:
+        h = _first_handler(ctx.repo, tr, exc, ref.mod, ref.node)
+        if h is None:
+            continue
+        ends = {_path_raise(ctx, ps, ref, p) for p in enumerate_paths(h.body)}
+        if 'falls' in ends and 'unknown' not in ends:
+            return 'tolerated', f'handler `except {short(h.type) if h.type else ""}` in {ref.qn} can end normally'
+        if ends == {'meson'}:
+            exc = 'MesonException'
+        elif ends != {'reraise'}:
+            raise Undecided(f'{ref.qn}: the handler that catches {exc} on the way out of `{short(node)}` is not understood ({sorted(ends)})')
+    return 'escapes', exc
+
+
+def _absence_outcome(ctx: RuleCtx, ps: PathSym, chain: StateChain, base: str, depth: int = 2) -> T.Tuple[str, str]:
+    """What becomes of the FileNotFoundError of the innermost read when meson-private/<base> is absent, frame by frame out to the
+    msetup function and on to its call sites inside msetup: ('tolerated', where) - an existence test of that name dominates the
+    frame's call, or a handler that can end without raising catches it; ('escapes', class) - every handler on the way re-raises
+    or converts it."""
+    exc = 'FileNotFoundError'
+    for ref, node, env in chain:
+        v, x = _frame_outcome(ctx, ps, ref, node, env, base, exc)
+        if v == 'tolerated':
+            return v, x
+        exc = x
+
+    def callers(top: FuncRef, exc: str, d: int) -> T.Optional[str]:
+        """None: some call site lets it escape (or there is none); else where every call site tolerates it."""
+        bare = top.qn.rsplit('.', 1)[-1]
+        names = {bare} | ({top.qn.split('.')[-2]} if bare == '__init__' and '.' in top.qn else set())
+        how: T.List[str] = []
+        for qn2, fn2 in top.mod.funcs().items():
+            ref2 = FuncRef(top.mod, qn2)
+            for c in walk_no_nested(fn2):
+                if isinstance(c, ast.Call) and call_method(c) in names:
+                    r = _callee_or_ctor(ps, ref2, c)
+                    if r is None:
+                        raise Undecided(f'{qn2}: `{short(c)}` may or may not call {top.qn}')
+                    if r.mod.rel != top.mod.rel or r.qn != top.qn:
+                        continue
+                    v, x = _frame_outcome(ctx, ps, ref2, c, {}, base, exc)
+                    if v == 'tolerated':
+                        how.append(x)
+                        continue
+                    up = callers(ref2, x, d - 1) if d > 0 else None
+                    if up is None:
+                        return None
+                    how.append(up)
+        return '; '.join(sorted(set(how))) if how else None
+    top = chain[-1][0]
+    up = callers(top, exc, depth)
+    if up is not None:
+        return 'tolerated', f'at every call site of {top.qn}: {up}'
+    return 'escapes', exc
+
+
+_R6_EXAMPLE_REL = 'mesonbuild/__c09_r6_example__.py'
+_R6_READER_REL = 'mesonbuild/__c09_r6_reader__.py'
+_R6_READER = '''
+import os
+from .utils.universal import MesonException
+
+def load(build_dir):
+    filename = os.path.join(build_dir, 'meson-private', 'build.dat')
+    try:
+        with open(filename, 'rb') as f:
+            return f.read()
+    except FileNotFoundError:
+        raise MesonException('No such build data file')
+
+def load_or_none(build_dir):
+    try:
+        with open(os.path.join(build_dir, 'meson-private', 'build.dat'), 'rb') as f:
+            return f.read()
+    except FileNotFoundError:
+        return None
+'''
+_R6_EXAMPLE = '''
+import os
+from . import __c09_r6_reader__ as rd
+
+class App:
+    def handed_over(self, build_dir):
+        if os.path.exists(os.path.join(build_dir, 'meson-private', 'coredata.dat')):
+            return rd.load(build_dir)
+
+    def tested(self, build_dir):
+        priv = os.path.join(build_dir, 'meson-private')
+        if os.path.exists(os.path.join(priv, 'coredata.dat')) and os.path.exists(os.path.join(priv, 'build.dat')):
+            return rd.load(build_dir)
+
+    def tolerant(self, build_dir):
+        if os.path.exists(os.path.join(build_dir, 'meson-private', 'coredata.dat')):
+            return rd.load_or_none(build_dir)
+
+    def produce(self, build_dir, cd, b):
+        with open(os.path.join(build_dir, 'meson-private', 'coredata.dat~'), 'wb') as f:
+            f.write(cd)
+        os.replace(os.path.join(build_dir, 'meson-private', 'coredata.dat~'), os.path.join(build_dir, 'meson-private', 'coredata.dat'))
+        with open(os.path.join(build_dir, 'meson-private', 'build.dat'), 'wb') as f:
+            f.write(b)
+'''
+
+
+def _r6_scan(ctx: RuleCtx, repo: Repo, mod: Module, ps: PathSym) -> T.List[T.Tuple[str, FuncRef, ast.AST, str]]:
+    """('ok' | 'bad' | 'undecided', msetup function, hand-off call, text) per state file read through a hand-off."""
+    events = {qn: _state_events(ps, FuncRef(mod, qn), exact=ctx.thorough) for qn in mod.funcs()}
+    out: T.List[T.Tuple[str, FuncRef, ast.AST, str]] = []
+    done: T.Set[T.Tuple[str, int, str]] = set()
+    for qn, evs in events.items():
+        for kind, base, chain in evs:
+            if kind != 'read' or len(chain) < 2:
+                continue            # a read spelled in msetup itself is the first clause of R6
+            top, handoff, env0 = chain[-1]
+            if any(r.mod.rel == mod.rel for r, _n, _e in chain[:-1]):
+                continue            # passes through another function of msetup: judged from there (and out to its call sites)
+            if (qn, id(handoff), base) in done:
+                continue
+            done.add((qn, id(handoff), base))
+            via = ' -> '.join(r.qn for r, _, _ in reversed(chain))
+            try:
+                verdict, how = _absence_outcome(ctx, ps, chain, base)
+            except Undecided as e:
+                out.append(('undecided', top, handoff, f'{via}: {e}'))
+                continue
+            if verdict == 'tolerated':
+                out.append(('ok', top, handoff, f'{qn}: `{short(handoff)}` reads meson-private/{base} ({via}); its absence is survivable: {how}'))
+                continue
+            # witness: a kill can leave the directory with everything this hand-off tests for, yet without <base> - when every
+            # tested file is published before <base> is written
+            unknown: T.List[str] = []
+            others = sorted({b for es in events.values() for k, b, _c in es} - {base})
+            tested = _tested_before(ps, top, env0, handoff, others, unknown)
+            if unknown:
+                out.append(('undecided', top, handoff, f'{qn}: an existence test before `{short(handoff)}` names a file the rule cannot fold: {unknown[0]}'))
+                continue
+            order_ok = True
+            why = 'nothing but the directory is tested before it'
+            for m in tested:
+                proof = None
+                for qn2, es in sorted(events.items(), key=lambda kv: -min([len(c) for k, b, c in kv[1] if k == 'write' and b in (m, base)] or [0])):
+                    wm = [c[-1][1] for k, b, c in es if k == 'write' and b == m]
+                    wf = [c[-1][1] for k, b, c in es if k == 'write' and b == base]
+                    if wm and wf:
+                        cfg2 = CFG(mod.func(qn2))
+                        nm = [n for x in wm for n in cfg2.node_containing(x)]
+                        nf = [n for x in wf for n in cfg2.node_containing(x)]
+                        if nm and nf and not any(cfg2.can_reach(cfg2.entry, n, avoid=nm) for n in nf):
+                            proof = f'{qn2} publishes {m} before it writes {base}'
+                if proof is None:
+                    order_ok = False
+                    why = f'cannot establish that {m} (tested before the hand-off) is published before {base} is written'
+                    break
+                why = proof
+            if not order_ok:
+                out.append(('undecided', top, handoff, f'{qn}: `{short(handoff)}` refuses when meson-private/{base} is absent, but {why}'))
+                continue
+            out.append(('bad', top, handoff, f'hand-off to {chain[-2][0].qn}(...) needs meson-private/{base}\x00'
+                        f'`{short(handoff)}` hands control to a reader of meson-private/{base} ({via}) that refuses when the file is absent ({how} reaches {qn}), '
+                        f'and only {", ".join(tested) if tested else "the directory"} is tested before the call; {why}, so a setup killed in between leaves exactly '
+                        f'that state and the re-run of the same `meson setup` command fails instead of finishing the configuration '
+                        f'(test the existence of {base} as well, or make the reader tolerate its absence)'))
+    return out
+
+
+def _r6_handoffs(ctx: RuleCtx, mod: Module, ps: PathSym) -> None:
+    # built-in positive example (expected-zero clause)
+    ex_repo = Repo(ctx.repo.root, {_R6_EXAMPLE_REL: _R6_EXAMPLE, _R6_READER_REL: _R6_READER})
+    ex = sorted((v, r.qn) for v, r, _n, _t in _r6_scan(ctx, ex_repo, ex_repo.module(_R6_EXAMPLE_REL), PathSym(ex_repo)))
+    if ex != [('bad', 'App.handed_over'), ('ok', 'App.tested'), ('ok', 'App.tolerant')]:
+        raise AnalysisError(f'C09.R6 built-in example (hand-off to build.load behind a test of coredata.dat only) not classified as expected: {ex}')
+    res = _r6_scan(ctx, ctx.repo, mod, ps)
+    und = [t for v, _, _, t in res if v == 'undecided']
+    for v, ref, node, text in res:
+        if v == 'ok':
+            ctx.ok(text)
+        elif v == 'bad':
+            # construct free of local names and spelling: the function handed to (as resolved) and the file it refuses to do without
+            construct, _sep, msg = text.partition('\x00')
+            ctx.violation(mod, ref.qn, construct, msg, node)
+    ctx.note(f'hand-offs from msetup to readers of constant-named meson-private files (within {HANDOFF_DEPTH} calls, constructors followed): {len(res)}')
+    if und:
+        raise Undecided('; '.join(und))
+
+
+LOADERS ={'pickle.load': ('EOFError', 'UnpicklingError'), 'json.load': ('ValueError',)}
 
 
 def r7_readback(ctx: RuleCtx) -> None:
